@@ -51,7 +51,7 @@ func openStore(c *fw.Ctx, kind int, g *lab.PathGen, model map[string][]byte, tag
 			st.name = "layered(memory over persistent)"
 		}
 		m0 := lab.NewMPT(base, 1, nil)
-		nb := c.Rng.Intn(7)
+		nb := c.Rng.Intn(14)
 		for i := 0; i < nb; i++ {
 			p := g.Pick(lab.SortedKeys(model))
 			v := lab.GenValue(c.Rng, i)
@@ -77,6 +77,9 @@ func runC01(c *fw.Ctx) {
 	st, root := openStore(c, kind, g, model, "s")
 	defer st.cleanup()
 	version := int64(2)
+	if st.base != nil && r.Intn(2) == 0 {
+		version = 1 // a layered trie at the version of the state below it (a transaction over a block): identical nodes can re-appear
+	}
 	bumpEvery := 0
 	if r.Intn(3) == 0 {
 		bumpEvery = 2 + r.Intn(8)
